@@ -101,6 +101,30 @@ def apply_pit_masks(pit, spec, masks, vseed: int, fixed=None):
     group_of, frozen, members = ng.width_groups(spec, fixed)
     layers = pit_layers(pit)
     done = set()
+
+    def write(param, values):
+        # both common ways of setting a parameter by hand: copy_ under no_grad bumps the tensor's
+        # version counter, a write through .data (the library's own idiom) does not
+        t = torch.tensor(values, dtype=torch.float32)
+        if vseed % 2:
+            param.data.copy_(t)
+        else:
+            param.copy_(t)
+    if (vseed // 2) % 2:
+        # the state a search leaves behind: the model was already evaluated (eval-mode forward,
+        # cost, summary) with the masks it had before - nothing of that may survive the write
+        was = pit.training
+        try:
+            pit.eval()
+            with torch.no_grad():
+                ng.call(pit, ng.make_input(spec, 0, batch=2))
+                cs = pit.cost_specification
+                for name in (list(cs.keys()) if isinstance(cs, dict) else [None]):
+                    pit.get_cost(name) if name is not None else pit.cost
+                pit.summary()
+        except Exception:  # noqa - whatever fails here fails again, visibly, in the case proper
+            pass
+        pit.train(was)
     with torch.no_grad():
         for n in spec['nodes']:
             nid = n['id']
@@ -113,14 +137,14 @@ def apply_pit_masks(pit, spec, masks, vseed: int, fixed=None):
             masker = layers[nid].out_features_masker
             vals = alpha_values(masks['g'][g], vseed, g)
             if masker.alpha.numel() == len(vals):
-                masker.alpha.copy_(torch.tensor(vals, dtype=torch.float32))
+                write(masker.alpha, vals)
         for nid, (nb, t) in masks['t'].items():
             if nid not in layers:
                 continue
             layer = layers[nid]
             K = layer.kernel_size[0]
-            layer.timestep_masker.beta.copy_(torch.tensor(beta_values(K, nb, vseed, nid)))
-            layer.dilation_masker.gamma.copy_(torch.tensor(gamma_values(K, t, vseed, nid)))
+            write(layer.timestep_masker.beta, beta_values(K, nb, vseed, nid))
+            write(layer.dilation_masker.gamma, gamma_values(K, t, vseed, nid))
     return done
 
 
